@@ -115,13 +115,16 @@ func DigestPowershell(r io.Reader, style PsSigStyle, hash crypto.Hash) (*PsDiges
 			return nil, err
 		}
 		if line == first {
-			// remove EOL from previous line
+			// the line break before the block belongs to the signature, if
+			// there is one (the block may be the first line, or follow a
+			// line that ends some other way)
+			eol := "\r\n"
 			if isUtf16 {
-				saved = saved[:len(saved)-4]
-				sigSize = 4
-			} else {
-				saved = saved[:len(saved)-2]
-				sigSize = 2
+				eol = "\r\x00\n\x00"
+			}
+			if strings.HasSuffix(saved, eol) {
+				saved = saved[:len(saved)-len(eol)]
+				sigSize = int64(len(eol))
 			}
 			// count the size of the signature
 			sigSize += int64(len(line))
